@@ -122,6 +122,11 @@ Theorem C19_k1_session_id : gen_sid = {| sid_key := SESSION_ID_PARAM_NAME; sid_o
 Proof. exact gen_sid_eq. Qed.
 Print Assumptions C19_k1_session_id.
 
+(* prefix() media() get() get_or_default() put() remove() contains_key() are the one-liners the model assumes *)
+Theorem C19_k1_accessors : gen_accessors_ok = true.
+Proof. exact gen_accessors. Qed.
+Print Assumptions C19_k1_accessors.
+
 (* the round trip on the two translated functions alone: whatever the translated parser accepts, printed by the translated
    fmt in any HashMap order, is accepted again by the translated parser as the same prefix, media and map *)
 Theorem C19_k1_roundtrip : forall s u,
@@ -131,6 +136,11 @@ Theorem C19_k1_roundtrip : forall s u,
               /\ gparse gen_parser x = GOk (mkUri (u_prefix u) (u_media u) ord).
 Proof. exact (gen_roundtrip_from (fun s u H ord Hp => proj1 (C19_reparse s u H ord Hp))). Qed.
 Print Assumptions C19_k1_roundtrip.
+
+(* what the harness observes for `p <s>`, computed from the two translated trees, is the model's observation *)
+Theorem C19_k1_observations : forall s, gparse_obs gen_parser gen_display s = parse_obs s.
+Proof. exact gen_obs_eq. Qed.
+Print Assumptions C19_k1_observations.
 
 (* ---- the parser accepts exactly the grammar; printing what was read gives the input back up to order -------------- *)
 
